@@ -178,6 +178,45 @@ class Gen:
         return prog, xs, polls, clocks
 
 
+def manyfd_struct(r, ctx):
+    """C14: 2^k distinct descriptors are registered (the pollfd array is exactly full), then the
+    registration of one more NEW descriptor has one of its allocations refused - the growth of
+    the pollfd array among them.  Afterwards all the earlier registrations must still work."""
+    nfd = r.choice([16, 16, 32])
+    ctx.count("events.allocfail.manyfd.%d" % nfd)
+    ncb = 4
+    prog = [[([], 0)], [([["nc", r.randrange(nfd), r.randrange(2)]], 0)],
+            [([["nr", 0, r.randrange(nfd), r.randrange(2), 0]], 0)], [([], 0), ([], 0)]]
+    xs = []
+    for fd in range(nfd):
+        d = r.randrange(2)
+        xs.append(["nr", fd % ncb, fd, d, 0])
+        if r.random() < 0.25:
+            xs.append(["nr", (fd + 1) % ncb, fd, 1 - d, 0])
+    if r.random() < 0.3:
+        xs.append(["run"])
+    k = r.choice([1, 2, 3, 4, -1, -2, -3, -4, 2, 3, -2, -3])
+    failing = ["nr", r.randrange(ncb), nfd, r.randrange(2), 0]
+    xs.append(failing)
+    between = r.random() < 0.5        # a run between the refused call and its retry
+    if between:
+        xs.append(["run"])
+    xs.append(list(failing))
+    xs.append(["run"])
+    for _ in range(r.randrange(0, 6)):
+        xs.append(["nc", r.randrange(nfd + 1), r.randrange(2)])
+    xs.append(["run"])
+    polls = []
+    for _ in range(10):
+        fds = r.sample(range(nfd + 1), r.randrange(0, 9))
+        ans = []
+        for f in sorted(fds):
+            ans += [f, r.choice([1, 2, 3, 3, 8])]
+        polls.append(["r", len(ans) // 2] + ans)
+    clocks = [(1, 0)]
+    return (prog, xs, polls, clocks, 0), failing, k, between
+
+
 def render(prog, xs, polls, clocks):
     out = ["ev", len(prog)]
     for scripts in prog:
@@ -379,8 +418,13 @@ def check_events_allocfail(ctx):
         return
     r = random.Random("events-c14-%d-%s" % (ctx.seed, ctx.tier))
     g = Gen(r, ctx)
-    structs, inj = [], []
-    n = ctx.n(1500, 40000)
+    structs, inj, immediate = [], [], []
+    for _ in range(ctx.n(250, 6000)):
+        st, o, k, between = manyfd_struct(r, ctx)
+        structs.append(st)
+        inj.append((o, k))
+        immediate.append(not between)
+    n = ctx.n(1500, 40000) + len(structs)
     while len(structs) < n:
         prog, xs, polls, clocks = g.case_struct()
         sites = [(xs, i) for i, o in enumerate(xs) if o[0] in ("ir", "nr", "tr")]
@@ -397,6 +441,7 @@ def check_events_allocfail(ctx):
         refuse_cancels = 1 if r.random() < 0.3 else 0
         structs.append((prog, xs, polls, clocks, refuse_cancels))
         inj.append((o, k))
+        immediate.append(True)
         ctx.count("events.allocfail.site." + o[0])
         ctx.count("events.allocfail.persistent" if k < 0 else "events.allocfail.single")
 
@@ -426,7 +471,9 @@ def check_events_allocfail(ctx):
         mcases.append(line(st, o, stage))
     model, _ = vlib.run_sharded(mexe, mcases, timeout=1500)
     traces = [l[3:] if l.startswith("ok ") else "" for l in impl]
-    c14, _ = vlib.run_sharded(mexe, ["chk14 " + t for t in traces], timeout=1500)
+    # the retry-at-once predicate applies where the program retries at once; elsewhere check_c04
+    c14, _ = vlib.run_sharded(mexe, [("chk14 " if imm else "chk04 ") + t for t, imm in zip(traces, immediate)],
+                              timeout=1500)
     c05, _ = vlib.run_sharded(mexe, ["chk05 " + t for t in traces], timeout=1500)
     nprop = ndiff = 0
     for i, c in enumerate(ccases):
